@@ -101,8 +101,15 @@ BENIGN = re.compile(
 
 
 class Summaries:
-    def __init__(self, abstract_fields=True, abstract_group=False, local=None):
+    GLUE = {"from_bytes_checked", "deserialize_compressed", "serialize_compressed", "serialized_size", "from_le_bytes_mod_order",
+            "from_be_bytes_mod_order", "into_bigint", "from_bigint", "cmp", "partial_cmp", "hash", "rand", "to_bytes",
+            "deserialize_with_flags", "serialize_with_flags", "serialize_with_mode", "deserialize_with_mode", "from_str", "fmt",
+            "from_random_bytes_with_flags", "serialized_size_with_flags", "check", "legendre", "sqrt", "from", "power", "pow_le_limbs",
+            "characteristic", "extension_degree", "from_base_prime_field_elems", "from_base_prime_field", "to_base_prime_field_elements"}
+
+    def __init__(self, abstract_fields=True, abstract_group=False, local=None, abstract_glue=True):
         self.abstract_fields = abstract_fields
+        self.abstract_glue = abstract_glue
         self.abstract_group = abstract_group
         self.local = local or {}     # instance path -> function(ctx) : rule-supplied summaries of crate functions
         self.sqrt_routines = []
@@ -163,6 +170,9 @@ class Summaries:
             return FALSE
         if tp == "ark_serialize::Flags::BIT_SIZE":
             a0 = (c.get("args") or ["?"])[0]
+            m = re.match(r"^<(.*) as ark_serialize::Flags>::BIT_SIZE$", path or "")
+            if m:
+                a0 = m.group(1)
             return {"ark_serialize::EmptyFlags": lit(0)}.get(a0, mk("flags_bit_size", a0))
         # trait consts of the crate's own configs resolved through the trait (TECurveConfig::COEFF_A ...)
         inst = c.get("inst") or {}
@@ -191,6 +201,12 @@ class Summaries:
             return None if s is None else list(reversed(s))
         if it.op == "array":
             return list(it.args)
+        if it.op == "iter_mut" and it.args[0].op == "placeref":
+            pr = it.args[0]
+            n = I.length_of_place(pr)
+            if n is None:
+                return None
+            return [mk("placeref", pr.args[0], tuple(pr.args[1]) + (("i", lit(k)),)) for k in range(n)]
         if it.op == "iter":
             return self.concrete_seq(I, it.args[0])
         if it.op == "zip":
@@ -252,17 +268,28 @@ class Summaries:
         if tp in ("core::cell::RefCell::<T>::borrow", "core::cell::RefCell::<T>::borrow_mut"):
             ctx.effect("refcell_" + name, a[0])
             return a[0]
-        if tp == "core::convert::Into::into" or tp == "core::convert::From::from":
+        local_inst = bool((ctx.c.get("inst") or {}).get("local")) and ctx.I.prog.body(key) is not None
+        if (tp == "core::convert::Into::into" or tp == "core::convert::From::from") and not local_inst:
             return self.conversion(ctx, tp, a)
-        if tp == "core::convert::TryInto::try_into" or tp == "core::convert::TryFrom::try_from":
+        if (tp == "core::convert::TryInto::try_into" or tp == "core::convert::TryFrom::try_from") and not local_inst:
             return self.try_conversion(ctx, tp, a)
         if tp == "core::iter::IntoIterator::into_iter":
             return a[0]
+        if tp in self.CALLBACKS and not (ctx.c.get("inst") or {}).get("local"):
+            r = self.callback(ctx, tp, a)
+            if r is not NotImplemented:
+                return r
+        if tp == "core::slice::<impl [T]>::iter_mut" and ctx.places and ctx.places[0] is not None:
+            pl = ctx.places[0]
+            return mk("iter_mut", mk("placeref", pl[0], tuple(pl[1])))
         if tp in ("core::slice::<impl [T]>::iter", "core::slice::<impl [T]>::iter_mut", "core::iter::Iterator::collect",
                   "ark_std::slice::<impl [T]>::to_vec", "ark_ff::vec::Vec::<T, A>::into_boxed_slice", "core::iter::Iterator::by_ref",
                   "core::iter::Iterator::copied", "core::iter::Iterator::cloned"):
             return a[0]
-        if tp == "core::slice::<impl [T]>::len":
+        if tp in ("core::slice::<impl [T]>::len", "ark_std::iterable::Iterable::len"):
+            n = I.length_of(a[0], ctx.arg_exprs[0] if ctx.arg_exprs else None)
+            if n is not None:
+                return lit(n)
             m = re.search(r";\s*(\d+)\]$", ctx.arg_ty(0))
             if m:
                 return lit(int(m.group(1)))
@@ -284,6 +311,10 @@ class Summaries:
         if tp == "core::ops::RangeInclusive::<Idx>::new":
             return mk("range_incl", a[0], a[1])
         if tp in ("core::slice::<impl [T]>::chunks", "core::slice::<impl [T]>::chunks_exact"):
+            n = I.length_of(a[0], ctx.arg_exprs[0] if ctx.arg_exprs else None)
+            if n is not None and Tm.is_lit(a[1]) and a[1].args[0] > 0 and (name == "chunks_exact" or n % a[1].args[0] == 0) and n // a[1].args[0] <= 16:
+                w = a[1].args[0]
+                return mk("array", *[mk("chunk", a[0], w, i) for i in range(n // w)])
             return mk(name, a[0], a[1])
         if tp == "core::iter::Iterator::fold":
             return self.fold(ctx, a[0], a[1], a[2])
@@ -403,6 +434,13 @@ class Summaries:
             ctx.write(1, mk("rng_bytes", a[0], I.fresh("rng")))
             return UNIT
         if tp == "ark_serialize::Read::read_exact":
+            # reading n bytes from a slice of known length >= n cannot fail and yields its first n bytes
+            src_n = I.length_of(a[0], ctx.arg_exprs[0])
+            dst_n = I.length_of(a[1], ctx.arg_exprs[1])
+            if src_n is not None and dst_n is not None:
+                if src_n == dst_n:
+                    ctx.write(1, a[0])
+                    return variant("Ok", UNIT)
             nread = I.fresh("read")
             ctx.write(1, mk("read_bytes", a[0], nread))
             return mk("io_result", nread)
@@ -419,6 +457,57 @@ class Summaries:
         if tp.startswith("tracing") or tp.startswith("tracing_core"):
             return mk("tracing")
         return NotImplemented
+
+    # provided (default) trait methods of external traits that call back into an impl of this crate
+    CALLBACKS = {
+        "ark_serialize::CanonicalDeserialize::deserialize_compressed": ("ark_serialize::CanonicalDeserialize", "deserialize_with_mode",
+                                                                       lambda a: [a[0], variant("Yes"), variant("Yes")]),
+        "ark_serialize::CanonicalSerialize::serialize_compressed": ("ark_serialize::CanonicalSerialize", "serialize_with_mode",
+                                                                   lambda a: [a[0], a[1], variant("Yes")]),
+        "ark_serialize::CanonicalSerialize::compressed_size": ("ark_serialize::CanonicalSerialize", "serialized_size",
+                                                              lambda a: [a[0], variant("Yes")]),
+        "core::iter::Iterator::sum": ("core::iter::Sum", "sum", lambda a: [a[0]]),
+        "core::iter::Iterator::product": ("core::iter::Product", "product", lambda a: [a[0]]),
+    }
+
+    def callback(self, ctx, tp, a):
+        I = ctx.I
+        trait, meth, mkargs = self.CALLBACKS[tp]
+        targs = ctx.targs
+        if not targs:
+            return NotImplemented
+        selfty = targs[0]
+        cand = None
+        if trait in ("core::iter::Sum", "core::iter::Product"):
+            # Iterator::sum::<S>() : S is the second generic argument; impl `Sum<Item> for S`
+            if len(targs) < 2:
+                return NotImplemented
+            selfty = targs[1]
+            for (tr, st), im in I.prog.impl_index.items():
+                if st == strip_lt(selfty) and tr.split("<")[0] == trait:
+                    cand = im if cand is None else cand
+        else:
+            for (tr, st), im in I.prog.impl_index.items():
+                if st == strip_lt(selfty) and tr.split("<")[0] == trait:
+                    cand = im
+        if cand is None:
+            return NotImplemented
+        if self.abstract_fields and self.abstract_glue and sort_of(selfty)[0] == "field":
+            return NotImplemented
+        path = None
+        for it in cand["items"]:
+            if it["name"] == meth:
+                path = it["path"]
+        if path is None or I.prog.body(path) is None:
+            return NotImplemented
+        c2 = {"path": trait + "::" + meth, "args": [selfty], "trait": trait, "inst": {"path": path, "local": True, "args": targs}}
+        args = mkargs(a)
+        exprs = list(ctx.arg_exprs) + [None] * (len(args) - len(ctx.arg_exprs))
+        r = I.do_call(c2, args, exprs[:len(args)], ctx.e, ctx.env, ctx.fr)
+        if r is None:
+            return None
+        ctx.env = r[1]
+        return r[0]
 
     def eq_dispatch(self, ctx, x, y, ty):
         return eq(x, y)
@@ -645,11 +734,15 @@ class Summaries:
             return mk("uniform_rand", ctx.ret_ty(), I.fresh("rand"))
         if tp == "ark_std::rand::Rng::sample":
             return mk("rng_sample", ctx.ret_ty(), I.fresh("sample"))
+        flagty = (ctx.targs or [""])[0]
+        m = re.match(r"^<(.*) as ark_serialize::Flags>::", key)
+        if m:
+            flagty = m.group(1)
         if tp == "ark_serialize::Flags::u8_bitmask":
-            if (ctx.targs or [""])[0] == "ark_serialize::EmptyFlags":
+            if flagty == "ark_serialize::EmptyFlags":
                 return lit(0)
         if tp == "ark_serialize::Flags::from_u8_remove_flags":
-            if (ctx.targs or [""])[0] == "ark_serialize::EmptyFlags":
+            if flagty == "ark_serialize::EmptyFlags":
                 return variant("Some", mk("struct", "ark_serialize::EmptyFlags", ()))
         if tp == "ark_ff::BigInteger::mul2":
             ctx.write(0, mk("bigint_mul2", a[0]))
@@ -678,6 +771,11 @@ class Summaries:
             f = sort_of(ctx.targs[0])[1]      # provided trait method with Self = a crate field
         if f is None:
             return NotImplemented
+        if not self.abstract_glue and name in self.GLUE:
+            # glue mode: the hand-written conversion layer is interpreted, only arithmetic and the wrapper
+            # primitives (from_raw_bytes, to_bytes_le, to_le_limbs, from_le_limbs, from_montgomery_limbs) stay abstract
+            if not (name == "from" and sort_of(ctx.arg_ty(0))[0] in ("int", "bool") and Tm.is_lit(a[0])):
+                return NotImplemented
         op = self.FIELD_TRAITS.get(tp)
         if op is None and name in ("add", "sub", "mul", "neg") and re.search(r"wrapper::F[qrp]::" + name + "$", key):
             op = name
@@ -903,6 +1001,8 @@ class Summaries:
 
 
 def self_len(x, ty):
+    if x.op == "chunk":
+        return lit(x.args[1])
     m = re.search(r";\s*(\d+)\]", ty)
     if m:
         return lit(int(m.group(1)))
